@@ -47,9 +47,31 @@ fn base_program(rng: &mut Rng) -> Vec<Node> {
     let fwd_lbl = names.fresh("lbl", rng);
     let late_macro = names.fresh("mac", rng);
     let mut orgs = [0i64; 3];
+    let mut big_done = false;
     for _ in 0..n {
         marker += 1;
-        match rng.below(17) {
+        match rng.below(19) {
+            // a macro that is defined and never called: its body is stored text, not lines of this file - an
+            // `.exit` there ends nothing
+            17 => {
+                let m = names.fresh("mac", rng);
+                v.push(Node::MacroDef {
+                    name: m,
+                    body: vec![Node::instr("nop", vec![]), Node::Raw(rng.pick(&[".exit", "\t.exit", "#exit", ".EXIT"]).to_string()), Node::instr("nop", vec![])],
+                    end_long: rng.chance(1, 2),
+                });
+                v.push(Node::Data { label: None, width: 2, ops: vec![DataOp::E(E::Lit(0x7200 + marker, 1))] });
+            }
+            // a file of more than 64 KiB most of which are multi-byte characters: wherever a reader cuts the
+            // bytes into blocks, a character lies across the cut
+            18 if !big_done && rng.chance(1, 3) => {
+                big_done = true;
+                let unit = *rng.pick(&["\u{65e5}\u{672c}\u{8a9e}", "\u{1f600}\u{e9}", "\u{20ac}\u{b5}x"]);
+                for k in 0..470 {
+                    v.push(Node::Comment(format!("{}{}", "-".repeat(k % 4), unit.repeat(33 + k % 3))));
+                }
+            }
+            18 => v.push(Node::Data { label: None, width: 2, ops: vec![DataOp::E(E::Lit(0x7300 + marker, 1))] }),
             // origins in all three segments: in the data and EEPROM segment the `.org` comes behind a first
             // item, so that a cut between the two leaves the included file in another segment than it began
             // in, and the including file goes on with `.org` without naming the segment again
